@@ -1,6 +1,6 @@
 """C19 - graph codec bijective (codec clause)."""
 from ..rules_flow import Flow
-from ..rules_k import K10_K11_codec, K12_local_complementation
+from ..rules_k import K10_K11_codec, K12_local_complementation, K14_grouping_codecs
 
 
 def run(tree, rep, tier):
@@ -8,6 +8,8 @@ def run(tree, rep, tier):
     flow.describe(rep)
     K10_K11_codec(rep, flow, tier)
     K12_local_complementation(rep, flow, tier)
+    K14_grouping_codecs(rep, flow)
     rep.decided += ["compress / decompress enumerate the same affine (i,j) -> bit bijection, equal to the documented layout; hence mutually inverse on 0..2^(n(n-1)/2)-1 (K10, K11)"]
     rep.decided += ["local complementation complements exactly the edges among the neighbours, is an involution and keeps the graph simple - for every graph on 2..5 vertices (quick tier) and 2..6 vertices, i.e. the whole domain of the property (thorough tier), both forms (K12)"]
-    rep.not_decided += ["that the stabilizer state stays in the same class under local complementation (value-level)", "class id <-> qubit grouping index arithmetic"]
+    rep.not_decided += ["that the stabilizer state stays in the same class under local complementation (value-level)", "class id <-> grouping arithmetic inside lc_classes (start offsets of the entanglement structures)"]
+    rep.decided += ["every to_<shape>/from_<shape> pair of linear_index is a bijection between its index range and the groupings of that shape, with from_ its inverse - over the whole index domain of every shape (K14)"]
